@@ -51,6 +51,8 @@ OPTSETS = [
     ("nocompress", ["-C"]), ("reentrant", ["--reentrant"]), ("cxx", ["-+"]), ("c99", ["--emit=c99"]),
     ("tables", ["--tables-file=@T"]), ("header", ["--header-file=@H"]), ("backup", ["-b"]),
     ("tables-verify-Cf", ["--tables-file=@T", "-Cf"]), ("perf", ["-p", "-v"]),
+    # option values longer than the generator's fixed-size text buffers
+    ("long-prefix", ["-P" + "long_prefix_" * 11 + "x"]),
 ]
 
 
@@ -144,6 +146,7 @@ def spec_worker(args):
         out["feats"][k] = out["feats"].get(k, 0) + n
     for optname, opts in optsets:
         base = None
+        feat("optset:" + optname)
         for var in variants(so, tier):
             res, data, err = gen_one(chk, flexes, spec, name, optname, opts, var, os.path.join(d, optname))
             out["runs"] += 1
@@ -281,6 +284,8 @@ def run(pid, tier):
             # generated specifications are always accepted: between them they cover every
             # option set whatever the seed picked from the corpus
             osets = [OPTSETS[0]] + [rest[(ngs * 3 + j) % len(rest)] for j in range(3)]
+            if ngs % 6 == 1 and OPTSETS[-1] not in osets:
+                osets.append(OPTSETS[-1])
             ngs += 1
         jobs.append((chk, flexes, so, idx, p, name, osets, tier))
     for o in util.pmap(spec_worker, jobs):
@@ -297,7 +302,7 @@ def run(pid, tier):
     bootstrap(chk)
     chk.sample({"specs": [n for _, n in specs][:8], "variants": [v[0] for v in variants(so, tier)]})
     for k in ("compared:scanner", "compared:header", "compared:tables", "compared:backup",
-              "memcheck_clean", "bootstrap_identical"):
+              "memcheck_clean", "bootstrap_identical", "optset:long-prefix", "optset:c99", "optset:cxx"):
         chk.require(k)
     return chk
 
